@@ -19,7 +19,7 @@ RULE = ("2-4 (thorough: up to 16) caller threads - real pthreads of which the si
         "('io'), or 1-30 forced pre-emptions at instrumented basic-block edges of the repository code placed after a counting pass ('edge'). Oracle: no crash/sanitizer report/exit/deadlock/step-budget overrun; "
         "handles issued as new pairwise distinct; interval semantics for searches and reads during the run; at quiescence objects = created - destroyed with every acknowledged change present, also after a restart; "
         "mutex discipline of the library as seen by the callbacks. Distinct+non-trivial: (locking mode, policy, stratum, distinct context-switch sequence).")
-PROBES = ["runs_with_switches", "edge_preemptions", "mutex_blocked", "mutex_locks", "handles_checked", "quiescence_checked", "restart_checked", "overlapping_calls", "stratum_close_open", "stratum_logout_private", "stratum_create_search", "stratum_destroy_read", "stratum_same_object", "stratum_slots", "stratum_crypto", "stratum_session_objects", "stratum_last_close_login", "login_state_after_own_login_checked", "parks_fired"]
+PROBES = ["runs_with_switches", "edge_preemptions", "mutex_blocked", "mutex_locks", "handles_checked", "quiescence_checked", "restart_checked", "overlapping_calls", "stratum_close_open", "stratum_logout_private", "stratum_create_search", "stratum_destroy_read", "stratum_same_object", "stratum_slots", "stratum_crypto", "stratum_session_objects", "stratum_last_close_login", "login_state_after_own_login_checked", "parks_fired", "rejected_sets"]
 DEATH_IS_VIOLATION = ("died.exit", "died.sanitizer", "died.signal", "died.hang", "died.deadlock")
 READ_T = c15.READ_T
 
@@ -129,7 +129,14 @@ def gen(seed, tier, index):
                     g.emit({"act": "readattrs", "s": s, "o": r.choice(allown), "types": READ_T}, t)
             elif stratum == "same_object" and x < 0.8:
                 ref = shared[0]
-                if r.random() < 0.75: op_set(t, ref, ["label", "id", "date", "end"][t % 4])
+                if r.random() < 0.3:
+                    # a REJECTED template: its first entry is acceptable (and is applied to the object in memory), its second is read-only - the call must
+                    # leave nothing behind, neither for this thread nor through another thread's commit
+                    attr = ["label", "id", "date", "end"][t % 4]
+                    first = {"label": A_bytes(K.CKA_LABEL, objs.label(ref, ":rej%d" % t + "".join(r.choice("abcdef") for _ in range(3)))), "id": A_bytes(K.CKA_ID, b"rej" + objs.rnd(r, 5)),
+                             "date": A_bytes(K.CKA_START_DATE, ("19%02d0%d1%d" % (r.randrange(100), r.randint(1, 9), r.randint(0, 9))).encode()), "end": A_bytes(K.CKA_END_DATE, ("18%02d0%d1%d" % (r.randrange(100), r.randint(1, 9), r.randint(0, 9))).encode())}[attr]
+                    g.emit({"f": "C_SetAttributeValue", "s": sess[t], "o": ref, "tmpl": [first, A_ulong(K.CKA_CLASS, K.CKO_DATA)], "rejected": True}, t, ok=False)
+                elif r.random() < 0.75: op_set(t, ref, ["label", "id", "date", "end"][t % 4])
                 else: g.emit({"act": "readattrs", "s": s, "o": ref, "types": READ_T}, t)
             elif stratum == "slots" and x < 0.6:
                 y = r.random()
@@ -289,6 +296,25 @@ def check(plan, r):
             for x in e.op["tmpl"]:
                 if x[1] == "x": writes.setdefault((e.op["o"], x[0]), []).append((e.inv, e.retn, bytes.fromhex(x[2]), e))
     c15.writes_all = writes; c15.events_all = evs
+    rejected = {}      # (ref, type) -> [(inv, retn, value)] of templates that were REJECTED (the call returned an error)
+    for e in evs:
+        if e.f == "C_SetAttributeValue" and e.op.get("rejected") and not e.ok and isinstance(e.op.get("o"), str):
+            st("rejected_sets")
+            for x in e.op["tmpl"]:
+                if x[1] == "x": rejected.setdefault((e.op["o"], x[0]), []).append((e.inv, e.retn, bytes.fromhex(x[2])))
+    def classify_rejected(v, e_, ref, attrs_):
+        """a wrong value that is the value of a REJECTED template: seen while that call was still running = dirty read (attribute writes of a transaction go
+        straight into the shared in-memory object); seen after it returned = the rejected change was applied"""
+        t_ = K.C.get(v.get("attr")); a_ = attrs_.get(str(t_)) if t_ is not None else None
+        if a_ is None or "v" not in a_: return
+        val = bytes.fromhex(a_["v"])
+        for (inv_, retn_, rv_) in rejected.get((ref, t_), []):
+            if rv_ == val:
+                running = inv_ < e_.retn and e_.inv < retn_
+                v["class"] = "C18.dirty_read" if running else "C18.rejected_change_applied"
+                v["manifestation"] = "value_of_a_running_rejected_call" if running else "rejected_template_value_persists"
+                v["msg"] += " - this is the value of a template that was REJECTED (%s)" % ("that call was still running" if running else "after that call had returned its error")
+                return
     def destroyed_before(ref, n): return any(d.ok and d.retn < n for d in destroys.get(ref, []))
     def destroy_started_before(ref, n): return any(d.inv < n for d in destroys.get(ref, []))
     def candidates(ref, typ, inv, retn):
@@ -395,12 +421,12 @@ def check(plan, r):
                     ref = ent.get("ref")
                     if ref and ref in create:
                         for v in c15.check_values(e, ref, oj["attrs"], candidates, where, policy, st, create, {}):
-                            v["class"] = v["class"].replace("C15.", "C18."); annotate(v, ref, oj["attrs"]); viols.append(v)
+                            v["class"] = v["class"].replace("C15.", "C18."); annotate(v, ref, oj["attrs"]); classify_rejected(v, e, ref, oj["attrs"]); viols.append(v)
         elif e.f == "@readattrs" and isinstance(e.op.get("o"), str) and e.op["o"] in create and not racy_run and not e.op.get("racy"):
             ref = e.op["o"]
             if not destroy_started_before(ref, e.retn) and any(rr == ref for rr in P.h2obj.values()):
                 for v in c15.check_values(e, ref, e.ret.get("attrs", {}), candidates, "run", policy, st, create, {}):
-                    v["class"] = v["class"].replace("C15.", "C18."); annotate(v, ref, e.ret.get("attrs", {})); viols.append(v)
+                    v["class"] = v["class"].replace("C15.", "C18."); annotate(v, ref, e.ret.get("attrs", {})); classify_rejected(v, e, ref, e.ret.get("attrs", {})); viols.append(v)
         w.apply(1, e.op, e.ret)
     tr = res.get("trace", [])
     sched = hashlib.sha256(repr([(d[0], d[3]) for d in tr]).encode()).hexdigest()[:12]
